@@ -172,6 +172,8 @@ func credGrid() []credKind {
 		{"no-colon", "Basic " + base64.StdEncoding.EncodeToString([]byte("alice"))},
 		{"pass-prefix", basic("alice", "ap")},
 		{"pass-extended", basic("alice", "apw:x")},
+		{"user-case", basic("ALICE", "apw")},
+		{"pass-case", basic("alice", "APW")},
 	}
 }
 
